@@ -52,7 +52,8 @@ def oracle(c):
             bad.append((k, "leaves are not the tokens of the consumed input in order"))
     # 3. partial parsing never turns an accepted input into a rejected or differently parsed one
     for inp, m in by_input.items():
-        if "0" in m and "1" in m and lf.klass(m["0"][1]) == "ok" and m["1"][1] != m["0"][1]:
+        if "0" in m and "1" in m and lf.klass(m["0"][1]) == "ok" and lf.klass(m["1"][1]) in ("ok", "err", "panic") \
+                and m["1"][1] != m["0"][1]:
             bad.append((m["1"][0], "partial_parse changes the result of an accepted input"))
     return bad
 
@@ -76,6 +77,7 @@ def run(rep, tier, seed):
                           partial=("0", "1"), ws=("mixed", "layout"), gen_kw=dict(layout="comments"))
     cases += lf.bnf_cases(rng, max(10, n // 10), tts=("LALR_PAGER",), algo="LR", max_len=3, n_sent=8, n_mut=4,
                           partial=("0", "1"), ws=("mixed", "layout"), gen_kw=dict(layout="nested"))
+    lf.add_histories(rng, cases)
     lf.run_cases(cases, extra_requests=lambda c: ["cert structural 0 0"])
     check(rep, cases, proofs_ok)
 
@@ -106,5 +108,6 @@ def replay(rep, path):
     g = lf.parse_bnf(p["grammar"])
     inputs = [("LR", pp, p.get("input", ""), {"toks": lf.toks_of_input(g, p.get("input", ""))}) for pp in ("0", "1")]
     c = lf.Case(p["grammar"], p["settings"].split(" "), inputs, gram=g)
+    lf.apply_replay_history(c, p)
     lf.run_cases([c], extra_requests=lambda c: ["cert structural 0 0"])
     check(rep, [c], True)
